@@ -211,26 +211,26 @@ def check_table(ctx, mf, name, form, nctl, strata, cells, cv, ov):
             got[(agg, method, err)] = v
             ctx.ev("aggregate_values_compared")
             ok = np.ndim(v) == 0 and any(close(v, c, 1e-12, 0.0) or (c == 0 and v == 0) for c in exp[(agg, method)])
-            ctx.check(ok, "aggregate_mismatch:%s:%s" % (agg, method), errors=err, got=repr(v), expected=exp[(agg, method)], **wit)
+            ctx.check(ok, "aggregate_mismatch:%s:%s" % (agg, method), errors=err, got=repr(v), expected=exp[(agg, method)], wit=wit)
         for (agg, method) in exp:
             a, b = got[(agg, method, "raise")], got[(agg, method, "coerce")]
             ctx.ev("raise_coerce_pairs_compared")
-            ctx.check(close(a, b, 0.0, 0.0), "raise_and_coerce_disagree:%s:%s" % (agg, method), raise_=repr(a), coerce=repr(b), **wit)
+            ctx.check(close(a, b, 0.0, 0.0), "raise_and_coerce_disagree:%s:%s" % (agg, method), raise_=repr(a), coerce=repr(b), wit=wit)
         # stated inequalities on the returned values themselves
         for err in ERRORS:
             db, dt = got[("difference", "between_groups", err)], got[("difference", "to_overall", err)]
             rb, rt = got[("ratio", "between_groups", err)], got[("ratio", "to_overall", err)]
             ctx.ev("inequalities_checked")
-            ctx.check(isnan(db) or db >= 0, "difference_negative:between_groups", got=repr(db), **wit)
-            ctx.check(isnan(dt) or dt >= 0, "difference_negative:to_overall", got=repr(dt), **wit)
+            ctx.check(isnan(db) or db >= 0, "difference_negative:between_groups", got=repr(db), wit=wit)
+            ctx.check(isnan(dt) or dt >= 0, "difference_negative:to_overall", got=repr(dt), wit=wit)
             ctx.check(isnan(db) or isnan(dt) or db <= 2 * dt * (1 + 1e-12) + 1e-300, "between_exceeds_twice_to_overall", between=repr(db),
-                      to_overall=repr(dt), **wit)
-            ctx.check(isnan(rt) or rt <= 1, "ratio_above_one:to_overall", got=repr(rt), **wit)
+                      to_overall=repr(dt), wit=wit)
+            ctx.check(isnan(rt) or rt <= 1, "ratio_above_one:to_overall", got=repr(rt), wit=wit)
             if max(vals) > 0:
-                ctx.check(isnan(rb) or rb <= 1, "ratio_above_one:between_groups", got=repr(rb), **wit)
+                ctx.check(isnan(rb) or rb <= 1, "ratio_above_one:between_groups", got=repr(rb), wit=wit)
             if min(vals) >= 0 and o >= 0:
-                ctx.check(isnan(rb) or rb >= 0, "ratio_negative_for_nonnegative_metric:between_groups", got=repr(rb), **wit)
-                ctx.check(isnan(rt) or rt >= 0, "ratio_negative_for_nonnegative_metric:to_overall", got=repr(rt), **wit)
+                ctx.check(isnan(rb) or rb >= 0, "ratio_negative_for_nonnegative_metric:between_groups", got=repr(rb), wit=wit)
+                ctx.check(isnan(rt) or rt >= 0, "ratio_negative_for_nonnegative_metric:to_overall", got=repr(rt), wit=wit)
 
 
 def run_weighted(ctx, rng, MetricFrame):
